@@ -2085,6 +2085,9 @@ class Path:
                     z3.ForAll([o], z3.Implies(z3.Select(env.alloc, o), z3.Select(a2, o))),
                     z3.ForAll([j], z3.Implies(rng, z3.And(seq_get(r, j) > 0, z3.Not(z3.Select(env.alloc, seq_get(r, j))),
                                                          z3.Select(a2, seq_get(r, j)), idx(seq_get(r, j)) == j)), patterns=[seq_get(r, j)]))
+        j2 = ops.qvar("jp")
+        self.assume(z3.ForAll([j, j2], z3.Implies(z3.And(0 <= j, j < j2, j2 < seq_len(S.t)), seq_get(r, j) != seq_get(r, j2)),
+                              patterns=[z3.MultiPattern(seq_get(r, j), seq_get(r, j2))]))
         old_alloc = env.alloc
         env.alloc = a2
         args = [self.ev(a, env.spec_view()) for a in call.args]
